@@ -69,7 +69,7 @@ def _worker(args):
                     cross=dict(checked=0, agree=0, unknown=0, disagree=0))
 
 
-def replay_record(path, timeout=300):
+def replay_record(path, timeout=1800):
     """Run the replay in a fresh interpreter: exit 0 = reproduces, 2 = does not."""
     import shutil
     import tempfile
